@@ -91,6 +91,27 @@ def chooser_starve(rng, victim_role):
     return choose
 
 
+def chooser_prefer(prefs):
+    """follows a list of preferred threads where it can (an entry that is not enabled when its turn comes is dropped); when
+    the list is used up the running thread continues while it can, else the first enabled one runs — used to shrink schedules"""
+    state = {"i": 0, "last": None}
+
+    def choose(en, sched):
+        while state["i"] < len(prefs) and prefs[state["i"]] not in en:
+            state["i"] += 1
+        if state["i"] < len(prefs):
+            t = prefs[state["i"]]
+            state["i"] += 1
+        elif state["last"] in en:
+            t = state["last"]
+        else:
+            t = sorted(en, key=order_key)[0]
+        state["last"] = t
+        return t
+
+    return choose
+
+
 def chooser_replay(schedule):
     it = iter(schedule)
 
@@ -493,7 +514,42 @@ class PoolProp:
         return runs
 
     def shrink_schedule(self, case):
-        return case
+        """delta debugging on the schedule: entries are removed as long as the oracle still reports a failure with the same
+        signature; what is dropped is filled by 'the running thread goes on'.  The result is the schedule actually executed
+        (so that `--replay` follows it exactly), with far fewer switches of thread than a random walk has."""
+        try:
+            if not case.get("schedule") or "real_scenario" in case.get("cfg", {}):
+                return case
+            cfg = self.cfg_from_json(case["cfg"])
+            env, status, schedule, steps = self.run_sim(cfg, chooser_replay(list(case["schedule"])))
+            v0 = self.oracle(cfg, env, status, steps)
+            if v0 is None:
+                return case  # not reproducible by its schedule alone: keep what was observed
+            sig = v0[1]
+            t_end = time.time() + 60
+
+            def fails(prefs):
+                if time.time() > t_end:
+                    return False
+                e, st, sch, stp = self.run_sim(cfg, chooser_prefer(list(prefs)))
+                v = self.oracle(cfg, e, st, stp)
+                return v is not None and v[1] == sig
+
+            prefs = core.ddmin(list(case["schedule"]), fails, max_tests=250)
+            e, st, sch, stp = self.run_sim(cfg, chooser_prefer(list(prefs)))
+            v = self.oracle(cfg, e, st, stp)
+            if v is None or v[1] != sig:
+                return case
+            switches = lambda xs: sum(1 for a, b in zip(xs, xs[1:]) if a != b)
+            out = dict(case)
+            out["schedule"] = sch
+            out["status"] = st
+            out["label"] = (case.get("label", "") + f" (schedule shrunk: {len(case['schedule'])} steps / "
+                            f"{switches(case['schedule'])} switches -> {len(sch)} steps / {switches(sch)} switches)").strip()
+            out["chooser"] = list(case.get("chooser", [])) + ["shrunk"]
+            return out
+        except Exception:  # noqa: shrinking is a convenience, the unshrunk case is a valid replay
+            return case
 
     real_scenarios = ()
     real_scenarios_quick = ()
@@ -545,8 +601,18 @@ class PoolProp:
     def do_replay(self, path):
         r = json.load(open(path, encoding="utf-8"))
         c = r["case"]
+        if "real_scenario" in c.get("cfg", {}):
+            soak = self.real_process_soak(Report(self.pid, "replay", 0), [c["cfg"]["real_scenario"]])
+            print("real-process scenario:", c["cfg"]["real_scenario"], "->", "failed" if soak is not None else "ok")
+            return 1 if soak is not None else 0
         cfg = self.cfg_from_json(c["cfg"])
-        env, status, schedule, steps = self.run_sim(cfg, chooser_replay(c["schedule"]))
+        try:
+            env, status, schedule, steps = self.run_sim(cfg, chooser_replay(c["schedule"]))
+        except HarnessError as e:
+            # the recorded schedule is a schedule of the tree it was found on: on another tree a thread may not be able to
+            # move where the schedule says so — then the recorded failure is not reproduced there
+            print(f"the recorded schedule cannot be followed on this tree ({e}); following it as far as possible instead")
+            env, status, schedule, steps = self.run_sim(cfg, chooser_prefer(list(c["schedule"])))
         print("status:", status)
         print("results:", env.results, "expected:", env.expected())
         print("logs:", env.logs)
